@@ -30,7 +30,7 @@ HEADER = ("From Coq Require Import ZArith List Bool PrimFloat. Import ListNotati
           "From GW Require Import Base.Fl C03.BBox C04.Invert.\n")
 
 
-def build(rng, n, analytic):
+def build(rng, n, analytic, preattach=False):
     import astropy.units as u
     from astropy.modeling import models
     from gwcs import wcs, coordinate_frames as cf
@@ -55,8 +55,13 @@ def build(rng, n, analytic):
         det = cf.Frame2D(name="detector")
         out = cf.CelestialFrame(reference_frame=coord.ICRS(), name="world")
         box = [(0.0, float(rng.randint(50, 120))), (float(rng.randint(0, 4)), float(rng.randint(8, 30)) + 0.5)]
-    w = wcs.WCS([(det, tr), (out, None)])
-    w.bounding_box = box[0] if n == 1 else tuple(box)
+    if preattach and n == 2:
+        # the box is put on the forward transform BEFORE the WCS is built: astropy stores it in its native 'C' order (y first)
+        tr.bounding_box = tuple(box[::-1])
+        w = wcs.WCS([(det, tr), (out, None)])
+    else:
+        w = wcs.WCS([(det, tr), (out, None)])
+        w.bounding_box = box[0] if n == 1 else tuple(box)
     return w, box
 
 
@@ -92,11 +97,11 @@ def run(ctx):
     pins.check(ctx, PINS)
     rng = ctx.rng
     terms_i, terms_m, meta_i, meta_m, problems = [], [], [], [], []
-    nw = 8 if ctx.quick else 80
+    nw = 12 if ctx.quick else 80
     for wi in range(nw):
         n = 1 + (wi % 2)
         analytic = (wi // 2) % 2 == 0
-        w, box = build(rng, n, analytic)
+        w, box = build(rng, n, analytic, preattach=(wi // 4) % 2 == 1)
         cbox = "(Some " + glist([f"({gfloat(lo)}, {gfloat(hi)})" for lo, hi in box]) + ")"
         for cls, pix in pixel_classes(rng, box):
             with np.errstate(all="ignore"):
